@@ -37,8 +37,8 @@ def search(pid, obligations, seed, log_dir, repo=None):
         m = re.search(r"^NATIVE-FAIL (.*)$", out, re.M)
         if m:
             return {"found": True, "failing_input": m.group(1), "cmd": "cargo test -p typify-impl --lib verif_native_search (VERIF_SEED=%s)" % seed}
-        if "NATIVE-SEARCH no failing sequence" in out:
-            return {"found": False, "note": re.search(r"^NATIVE-SEARCH.*$", out, re.M).group(0)}
+        if "NATIVE-SEARCH no failing sequence" in out and "NATIVE-SEARCH-API no failing history" in out:
+            return {"found": False, "note": " | ".join(re.findall(r"^NATIVE-SEARCH.*$", out, re.M))}
         return {"found": False, "note": "native search did not run: " + out[-800:]}
     finally:
         shutil.rmtree(ws, ignore_errors=True)
